@@ -34,6 +34,28 @@ CLAIMS = {
             TB + 'generated Unicode digit table re-proved each run; ASCII digit strings only',
             'Coq proof (induction + vm_compute over the 100 digit pairs) + differential correspondence incl. python -O', '6/C15'),
 }
+CLAIMS.update({
+    'C07': ('Totality theorems: loads on ANY bytes / configuration with field lengths returns a dict, the data error or Unmodelled (oracle-decided '
+            'input), never another exception and never out of fuel (fuel = length+1, i.e. linear termination); PDS and TLV walkers total; VBS and IPM '
+            'readers total for any file. Fault enumeration against the implementation: every structural byte substituted from a 20+ value alphabet, '
+            'multi-point mutations, random bytes, damaged files, CLI tools, each case under a watchdog.',
+            TB + 'strptime/re/Decimal total and failing only with the caught exception classes (oracle assumption, exercised by the run); real wall-clock time is measured by the watchdog, not proved',
+            'Coq proof (case analysis over the result monad, fuel lemmas by induction) + fault enumeration with watchdog', '6/C07'),
+    'C08': ('Soundness theorem for every accepted byte string: frames for exactly the flagged bits tile the data, each has its declared non-negative length, each '
+            'value is the conversion of its own bytes; completeness theorem: every message well framed with convertible values and walkable sub-structure is accepted. '
+            'Correspondence + independent strict reference decoder / frame recomputation on mutations near the valid language.',
+            TB + 'DE43_* entries (regex oracle) not modelled', 'Coq proof (monotone pointer, induction over the bit range) + differential correspondence + independent reference decoder', '6/C08'),
+    'C12': ('Theorems for every PDS set (any permutation of keys in the dict): chunks are the sub-elements in ascending tag order, 1..999 chars, none split; greedy packing is '
+            'optimal among all order-preserving unsplit partitions; chunk i goes to carrier i; walking any group recovers exactly its entries; packaged carriers = 48,62,123,124,125 '
+            '(generated obligation). Boundary sweep against the implementation with an independent frame reader.',
+            TB + 'more chunks than carriers raises IndexError in the code (outside the stated domain, observed)', 'Coq proof (sorting uniqueness, packing loop invariant, exchange argument, walk induction) + differential correspondence', '6/C12'),
+    'C16': ('mask: theorem for every string of >= 10 characters and every mask character. Decoding: the result dict is the ordered merge of per-frame contributions and a PAN / PAN-PREFIX '
+            'frame contributes exactly one entry, its masked value / first nine characters (so the clear value reaches the dict nowhere). Correspondence + search of every returned string for the clear PAN.',
+            TB + 'exceptions carry raw bytes as context data (not the returned dictionary)', 'Coq proof (list algebra; relational frame decomposition of loads) + differential correspondence', '6/C16'),
+    'C18': ('Theorems for every layout (19 <= start <= end), index assignment, row list (any bodies), expanded/compressed: the reader returns exactly the requested table\'s rows and columns; '
+            'compressed = expanded; refusals; packaged layouts admissible (generated obligation); composed with the VBS file round trip. Correspondence + independent slicing on synthetic files and the CSV tool.',
+            TB + 'record decoding per byte (codec table of <= 256 entries)', 'Coq proof (slice arithmetic, filter/map induction) + differential correspondence', '6/C18'),
+})
 PENDING = 'not yet claimed: model and theorems for this property are still being built (DESIGN.md section 11); no check registered yet'
 
 
